@@ -1,4 +1,5 @@
 import OpusModel.Cwrs
+import OpusModel.CeltAlloc
 import Driver.Util
 /- Suite `cwrs`: PVQ codeword enumeration (celt/cwrs.c) on the regenerated table, and the
    bits<->pulses cache look-ups of celt/rate.h.
@@ -8,7 +9,10 @@ import Driver.Util
          dec n k i            → decode_pulses with ec_dec_uint answering i: `y=<csv> yy=<Σy²> ft=<ft>`
          range n k i0 cnt     → hash over i0 ≤ i < i0+cnt of (cwrsi(n,k,i), yy, icwrs(cwrsi(n,k,i)))
          b2p band LM+1 bits   → bits2pulses        p2b band LM+1 pulses → pulses2bits
-         (LM ranges over -1..maxLM, so the protocol carries LM+1)                                  -/
+         (LM ranges over -1..maxLM, so the protocol carries LM+1)
+         alloc enc|dec start end C LM total trim intensity dual prev sigbw offsets oracle
+                              → clt_compute_allocation with cap = init_caps(LM, C): codedBands, balance, intensity,
+                                dual_stereo, pulses/ebits/fine_priority for start..end-1 and the range-coder calls                                  -/
 namespace Driver.SuiteCwrs
 open Opus Opus.Cwrs Opus.Rate Driver
 
@@ -71,6 +75,21 @@ def handle : List String → String
     | some band, some lm1, some p =>
       resStr (fun b => s!"b={b}") (pulses2bits Gen.CeltTables.cacheIndex Gen.CeltTables.cacheBits Gen.CeltTables.nbEBands band lm1 p)
     | _, _, _ => "bad-op"
+  | ["alloc", side, st, en, c, lm, total, trim, inten, dual, prev, sigbw, offs, orc] =>
+    match parseNat st, parseNat en, parseNat c, parseNat lm, parseInt total, parseInt trim, parseInt inten, parseInt dual,
+          parseInt prev, parseInt sigbw, parseIntList offs, parseNatList orc with
+    | some st, some en, some c, some lm, some total, some trim, some inten, some dual, some prev, some sigbw, some offs, some orc =>
+      if side ≠ "enc" ∧ side ≠ "dec" then "bad-op" else
+      let p : Opus.CeltAlloc.Inp := { start := st, end_ := en, offsets := offs, cap := Opus.CeltAlloc.initCaps lm c, trim := trim,
+        intensity := inten, dualStereo := dual, total := total, C := c, LM := lm, prev := prev, signalBandwidth := sigbw }
+      let opStr : Opus.CeltAlloc.Op → String
+        | .bit v => s!"b{v}"
+        | .uint v ft => s!"u{v}/{ft}"
+      resStr (fun (o : Opus.CeltAlloc.Out) =>
+        let ops := if o.ops.isEmpty then "-" else ",".intercalate (o.ops.map opStr)
+        s!"cb={o.codedBands} bal={o.balance} int={o.intensity} dual={o.dualStereo} p={intList (o.bands.map (·.pulses))} e={intList (o.bands.map (·.ebits))} f={intList (o.bands.map (·.prio))} ops={ops}")
+        (Opus.CeltAlloc.computeAllocation p { encode := side == "enc", oracle := orc })
+    | _, _, _, _, _, _, _, _, _, _, _, _ => "bad-op"
   | _ => "bad-op"
 
 end Driver.SuiteCwrs
